@@ -34,6 +34,22 @@ def _items(case):
     return [defset.Item(i["kind"], i["name"], i["text"], i["deps"], i["names"]) for i in case["items"]]
 
 
+BOUNDARY_CLASSES = [
+    ("after-star", lambda a, b: a == "*"),
+    ("before-star", lambda a, b: b == "*" or b.startswith("*")),
+    ("after-typedef", lambda a, b: a == "typedef"),
+    ("after-struct-union-enum-flag", lambda a, b: a in ("struct", "union", "enum", "flag")),
+    ("after-closing-brace", lambda a, b: a == "}"),
+    ("before-semicolon", lambda a, b: b == ";"),
+    ("around-comma", lambda a, b: a == "," or b == ","),
+    ("around-colon", lambda a, b: a == ":" or b == ":"),
+    ("around-equals", lambda a, b: a == "=" or b == "="),
+    ("inside-braces-edge", lambda a, b: a == "{" or b == "}"),
+    ("around-parenthesis", lambda a, b: a in "()" or b in "()"),
+    ("after-define-line", lambda a, b: a.startswith("#define")),
+]
+
+
 @st.composite
 def edit_case(draw, kind):
     items = draw(defset.defset())
@@ -42,7 +58,9 @@ def edit_case(draw, kind):
         if hasattr(it, "anon_members"):
             js["anon_members"] = it.anon_members
     if kind in ("trivia", "mixed"):
-        case["inserts"] = [[draw(st.integers(0, 10_000)), draw(st.integers(0, len(defset.TRIVIA) - 1))] for _ in range(draw(st.integers(1, 8)))]
+        # [position key, trivia index, syntactic class of the boundary (0 = any)]: stratified, so that every kind of
+        # boundary (after '*', after 'typedef', before ';', around ':' '=' ',' braces, ...) is visited in most cases
+        case["inserts"] = [[draw(st.integers(0, 10_000)), draw(st.integers(0, len(defset.TRIVIA) - 1)), draw(st.integers(0, len(BOUNDARY_CLASSES)))] for _ in range(draw(st.integers(1, 8)))]
         case["crlf"] = draw(st.integers(0, 5)) == 0
     if kind in ("order", "mixed"):
         case["perm"] = [draw(st.integers(0, 1000)) for _ in items]
@@ -159,10 +177,18 @@ def run_case(case, ctx):
         toks = defset.tokenize(whole)
         bounds = defset.allowed_boundaries(toks)
         inserts = {}
-        for pos, ti in case["inserts"]:
+        for ins in case["inserts"]:
+            pos, ti = ins[0], ins[1]
+            cls = ins[2] if len(ins) > 2 else 0
             if not bounds:
                 break
-            b = bounds[pos % len(bounds)]
+            pool = bounds
+            if cls:
+                pred = BOUNDARY_CLASSES[cls - 1][1]
+                pool = [b_ for b_ in bounds if pred(toks[b_][0], toks[b_ + 1][0])] or bounds
+                if pool is not bounds:
+                    ctx.count("trivia-at:" + BOUNDARY_CLASSES[cls - 1][0])
+            b = pool[pos % len(pool)]
             tr = defset.TRIVIA[ti]
             if tr.rstrip(" \t").endswith("*/") is False and "//" in tr and not tr.endswith("\n"):
                 tr += "\n"
